@@ -25,6 +25,8 @@ VOCAB = [
     '<3', 'a<b', '<', '<<', '<-', '->', '=>', '<=', 'a>b', '< a', '<1>', '<>',
     # backslashes and backticks
     'c:\\dir', '\\n', 'a\\b', '\\1', '`', '``', 'a`b', '`x',
+    # runs that mix the two underline characters, or an underline character with others: never a setext underline or a break
+    '=-=', '-=-', '=-', '-=', '==-', '--=', '=.=', '-_-', '*-*', '_*_',
     # misc
     "it's", '"q"', 'e.g.', 'i.e.', 'U.S.A.', 'http://x.y/z', 'www.x.org', 'a/b', 'a+b=c', '1+1=2', 'x=1', '--flag', '-o', 'C++', 'C#',
     'f(x)', 'f(x,y)', '(see', 'below)', 'TODO:', 'NB:', 'a:b', '9:30', '#!', '!important', '!x', '![', '!]',
